@@ -42,7 +42,8 @@ def gen_observer_set(rng):
         if rng.random() < p:
             rest.append(s)
     if rng.random() < 0.5:
-        rest.append({"t": "residual", "builder": rng.choice(BUILDERS), "rm": rng.random() < 0.8, "rj": rng.random() < 0.8})
+        rest.append({"t": "residual", "builder": rng.choice(BUILDERS), "rm": rng.random() < 0.8, "rj": rng.random() < 0.8,
+                     "pre_removed": rng.randrange(16) if rng.random() < 0.15 else None})
     for s in rest:
         obs.insert(rng.randint(0, len(obs)), s)
     if rng.random() < 0.2 and len(obs) >= 2:
@@ -69,7 +70,7 @@ def generate(seed, tier):
         mk = lambda k: [["env_step", rng.randrange(64), rng.randrange(64), int(rng.random() < 0.3), int(rng.random() < 0.5)] for _ in range(k)]  # noqa: E731
         return {"prop": PROP, "kind": "env", "cfg": cfg, "h1": mk(n if rng.random() < 0.5 else rng.randint(1, n)), "h2": mk(n if rng.random() < 0.6 else rng.randint(1, n)),
                 "rng_state_seed": rng.randrange(1 << 30)}
-    names, style = gen_filter(rng, None, p_none=0.5)
+    names, style = gen_filter(rng, None, p_none=0.5, user=0.15)
     spec = gen_instance(rng, sparse_ids=0.03, max_jobs=4, max_machines=4, max_ops=4, positive=True if names else None)
     n = n_ops(spec)
     mk = lambda k: [["dispatch", rng.randrange(64), rng.randrange(64), int(rng.random() < 0.5)] for _ in range(k)]  # noqa: E731
